@@ -48,7 +48,14 @@ type G struct {
 	filters []string
 	aggs    []string
 	DocKind string // how the last document was drawn: directed | perturbed | free
+	recs    int    // recursive-descent steps handed out so far (whole path incl. operands)
+	depth   int    // current operand nesting
 }
+
+// Evaluation cost is polynomial in the document size with one degree per recursive descent
+// (and per nested filter that re-evaluates a "$.."-operand for every member), so the number
+// of ".." steps per generated path is bounded: 3 overall, 1 inside filter operands.
+const maxRecs = 3
 
 // NewG creates a context.
 func NewG(t *rapid.T, o PathOpts) *G {
@@ -171,8 +178,9 @@ func (g *G) Step(filterDepth int, group bool, first bool) Step {
 		r -= c.w
 	}
 	s := Step{Kind: kind}
-	if group && !first && g.chance("rec", 12) {
+	if group && !first && g.chance("rec", 12) && g.recs < maxRecs && !(g.depth > 0 && g.recs >= 1) {
 		s.Rec = true
+		g.recs++
 	}
 	switch kind {
 	case KName:
@@ -299,6 +307,8 @@ func (g *G) operandFuncPct() int {
 
 // OperandPath draws an operand path. group=false gives a path legal in comparisons.
 func (g *G) OperandPath(filterDepth int, group bool) *Path {
+	g.depth++
+	defer func() { g.depth-- }()
 	p := &Path{Root: RootAt}
 	if !g.O.NoDollar && g.chance("dollar", 22) {
 		p.Root = RootDollar
